@@ -4,7 +4,7 @@
 // delivers them; histf: a fresh buffer per frame; stale: hist on a handler that found an old lease file):
 //
 //	hist MODE HOSTIP HOSTMAC ROUTERIP ROUTERMAC HOMEIP HOMEBITS NFIP NFBITS DNS op op ...
-//	op : D|R|X|L,chaddr,xid,ciaddr,cid,req,sid,b,src,prl    (X decline, L release)
+//	op : D|R|X|L,chaddr,xid,ciaddr,cid,req,sid,b,src,prl[,extra]    (X decline, L release; extra = further raw client options)
 //	     C,mac  U,mac  T,seconds  E,clientid,seconds
 //
 // The runner builds every DHCP frame with its own byte writer, feeds it to the
@@ -15,6 +15,7 @@ package dh
 
 import (
 	"bytes"
+	"math"
 	"encoding/hex"
 	"fmt"
 	"io"
@@ -107,6 +108,7 @@ type Msg struct {
 	Bflag  bool
 	Src    uint32
 	Prl    []byte
+	Extra  []byte // further client options, raw code/length/value bytes (51, 57, 12, 60, ...)
 }
 
 func optTok(p *uint32) string {
@@ -126,14 +128,17 @@ func (m Msg) Token() string {
 		b = "T"
 	}
 	return strings.Join([]string{string(m.Kind), hxmac(m.Chaddr), hx32(m.Xid), hx32(m.Ciaddr), cid, optTok(m.Req), optTok(m.Sid),
-		b, hx32(m.Src), lib.Hex(m.Prl)}, ",")
+		b, hx32(m.Src), lib.Hex(m.Prl), lib.Hex(m.Extra)}, ",")
 }
 
 func parseMsg(f []string) Msg {
-	if len(f) != 10 {
+	if len(f) != 10 && len(f) != 11 {
 		panic("bad op " + strings.Join(f, ","))
 	}
 	m := Msg{Kind: f[0][0], Chaddr: unhx(f[1]), Xid: unhx32(f[2]), Ciaddr: unhx32(f[3]), Bflag: f[7] == "T", Src: unhx32(f[8]), Prl: lib.UnHex(f[9])}
+	if len(f) == 11 {
+		m.Extra = lib.UnHex(f[10])
+	}
 	if f[4] != "~" {
 		m.HasCid = true
 		m.Cid = lib.UnHex(f[4])
@@ -195,6 +200,7 @@ func (m Msg) Frame() []byte {
 		p = append(p, 55, byte(len(m.Prl)))
 		p = append(p, m.Prl...)
 	}
+	p = append(p, m.Extra...)
 	p = append(p, 255)
 	for len(p) < 300 {
 		p = append(p, 0)
@@ -434,7 +440,22 @@ func (sv *Server) Step(tok string) (string, *Reply) {
 	case 0:
 		return "-", nil
 	case 1:
-		return showReply(rs[0], m.Prl), &rs[0]
+		out := showReply(rs[0], m.Prl)
+		if rs[0].Type == 5 { // what the server RECORDS for the binding it just acknowledged: expiry - now, to the minute
+			key := []byte(m.Chaddr)
+			if m.HasCid && len(m.Cid) > 0 {
+				key = m.Cid
+			}
+			rec := "-"
+			for _, l := range sv.H.VerifLeases() {
+				if bytes.Equal(l.ClientID, key) {
+					d := time.Until(l.DHCPExpiry).Seconds()
+					rec = strconv.FormatInt(int64(math.Floor((d+30)/60))*60, 10)
+				}
+			}
+			out += ",rec" + rec
+		}
+		return out, &rs[0]
 	}
 	return fmt.Sprintf("multi%d", len(rs)), nil
 }
